@@ -150,12 +150,14 @@ func LoadFiles(files []*BufferedFile) (*chart.Chart, error) {
 		case strings.HasPrefix(f.Name, "templates/"):
 			c.Templates = append(c.Templates, &chart.File{Name: f.Name, Data: f.Data})
 		case strings.HasPrefix(f.Name, "charts/"):
-			if filepath.Ext(f.Name) == ".prov" {
+			fname := strings.TrimPrefix(f.Name, "charts/")
+			// Provenance files of packaged dependencies sit directly in charts/.
+			// Anything deeper belongs to the subchart it is in.
+			if filepath.Ext(f.Name) == ".prov" && !strings.Contains(fname, "/") {
 				c.Files = append(c.Files, &chart.File{Name: f.Name, Data: f.Data})
 				continue
 			}
 
-			fname := strings.TrimPrefix(f.Name, "charts/")
 			cname := strings.SplitN(fname, "/", 2)[0]
 			subcharts[cname] = append(subcharts[cname], &BufferedFile{Name: fname, Data: f.Data})
 		default:
